@@ -309,6 +309,19 @@ class Interp:
         meth = getattr(self, "s_" + st.__class__.__name__, None)
         if meth is None:
             raise Unsupported(f"UNSUPPORTED {ctx.where} {st.__class__.__name__}")
+        hooks = getattr(self, "ghost_before", None)
+        if hooks and isinstance(st, (ast.Assign, ast.AugAssign, ast.Expr, ast.Return)) and getattr(env, "func", None) is not None:
+            # ghost statements of the contract under verification (lemma applications), keyed by the text of the statement
+            # they stand before; they can only add obligations and facts, never change program state
+            qn = getattr(env.func, "qualname", None) or ""
+            for (fname, prefix), fn in hooks.items():
+                if qn.endswith(fname) or fname == "*":
+                    try:
+                        txt = ast.unparse(st)
+                    except Exception:
+                        txt = ""
+                    if txt.startswith(prefix):
+                        fn(ctx, self, env)
         return meth(ctx, env, st)
 
     def s_Pass(self, ctx, env, st):
